@@ -56,7 +56,7 @@ func init() {
 		ID:    "C30",
 		Units: []string{"fasthttp.ParseUint", "fasthttp.parseUintBuf", "fasthttp.AppendUint", "fasthttp.readHexInt", "fasthttp.writeHexInt", "fasthttp.parseContentLength", "strconv.AppendUint", "strconv.formatBits"},
 		Runs: []Run{
-			{Pkg: "fasthttp", Func: "vhC30ParseUintDigits", Quick: map[string]int{"maxDigits": 20}, Thorough: map[string]int{"maxDigits": 24}},
+			{Pkg: "fasthttp", Func: "vhC30ParseUintDigits", Quick: map[string]int{"maxDigits": 22}, Thorough: map[string]int{"maxDigits": 26}},
 			{Pkg: "fasthttp", Func: "vhC30ParseUintAny", Quick: map[string]int{"maxAny": 4}, Thorough: map[string]int{"maxAny": 6}},
 			{Pkg: "fasthttp", Func: "vhC30AppendParse", Quick: map[string]int{"appendBits": 14}, Thorough: map[string]int{"appendBits": 16}},
 			{Pkg: "fasthttp", Func: "vhC30HexRoundTrip"},
@@ -328,13 +328,15 @@ func init() {
 func init() {
 	register(&Property{
 		ID:    "C33",
-		Units: []string{"fasthttputil.(*PipeConns)", "fasthttputil.(*pipeConn)", "fasthttputil.NewPipeConns", "fasthttputil.acquireByteBuffer", "fasthttputil.releaseByteBuffer"},
+		Units: []string{"fasthttputil.(*PipeConns)", "fasthttputil.(*pipeConn)", "fasthttputil.NewPipeConns", "fasthttputil.acquireByteBuffer", "fasthttputil.releaseByteBuffer", "fasthttputil.(*InmemoryListener)", "fasthttputil.NewInmemoryListener"},
 		Runs: []Run{
 			{Pkg: "fasthttputil", Func: "vhC33PipeStream", Quick: map[string]int{"writes": 2, "writeLen": 3}, Thorough: map[string]int{"writes": 3, "writeLen": 4}},
+			{Pkg: "fasthttputil", Func: "vhC33Listener", NoNative: true},
 		},
 		Assume: []string{
 			"PipeConns half only, sequential histories: up to `writes` writes of ≤ writeLen arbitrary bytes on one end (either direction), optionally interleaved with reads of buffer size 1 or 8 on the other end, then Close of the writing end, drain with 4-byte reads, and a write after Close; channels and sync.Pool run on the engine's scheduler",
-			"concurrent writers/readers, deadlines, closing the reading end first, and InmemoryListener Dial/Accept/Close pairing are outside this check",
+			"listener (vhC33Listener): one or two dialer goroutines, an accepter loop and a Close issued after 0..3 scheduler rounds, on the engine's cooperative scheduler (switch points: blocking channel operations and explicit yields; a select with several ready cases explores each); choices only, not re-run natively",
+			"concurrent writers/readers on one pipe end, deadlines and closing the reading end first are outside this check",
 		},
 	})
 }
